@@ -61,3 +61,18 @@ Proof.
   repeat split; auto. apply WorkerThm.handshake_wait_is_bounded. rewrite G. destruct (WorkerLib.psutil e && WorkerLib.leak e); reflexivity.
 Qed.
 Print Assumptions C05_worker_leaves_through_the_handshake.
+
+(* ---- interpreter exit (process_executor._python_exit, translated statement by statement) ----
+   every started manager thread is registered with its shutdown lock and wake-up pipe, and the hook is registered to run before the
+   threads are joined (generated fact); the hook sets the global flag FIRST (so that a manager woken at any later point reads it in
+   is_shutting_down and submit() refuses new work), takes the snapshot of the registered managers AFTER that, wakes every one of them
+   -- each under its own shutdown lock, which is what _ThreadWakeup.close() takes -- and only THEN joins them: a manager that is
+   woken with the flag set drains its work and leaves (C05_shutting_down_manager_is_never_stuck), so the joins return *)
+Theorem C05_interpreter_exit_order :
+  manager_thread_is_registered_for_interpreter_exit = true /\
+  xbefore XSetGlobalShutdown XSnapshotManagers python_exit_prog = true /\
+  xbefore XSnapshotManagers XWakeEachUnderItsShutdownLock python_exit_prog = true /\
+  xbefore XWakeEachUnderItsShutdownLock XJoinEachUnderTheGlobalLock python_exit_prog = true /\
+  length python_exit_prog = 4.
+Proof. repeat split; reflexivity. Qed.
+Print Assumptions C05_interpreter_exit_order.
